@@ -39,6 +39,14 @@
 (*          "trunc_toward_zero" ((int) cast instead of floor: a pair less than one     *)
 (*          bin width below rmin lands in bin 0), "lossy_cover", "maxid_exclusive"     *)
 (*          are self-tests.  Cases are exported and replayed into the real code.      *)
+(*                                                                                  *)
+(* "hist"   the HTM object with the caller's buffers as a state machine: histories   *)
+(*          (Overwrite ; Bincount)* on ONE object re-using the SAME coordinate        *)
+(*          buffers with their contents replaced in place.  The object has no         *)
+(*          abstract state; HistMechRefines: every call of every history equals the    *)
+(*          brute force on the contents at the time of the call.  Deviation            *)
+(*          "stale_cache" (reverse indices kept per buffer identity) is the self-test. *)
+(*          Histories are exported and replayed call by call into one real object.    *)
 EXTENDS HtmIds, Json
 H == INSTANCE Hist
 
@@ -51,17 +59,19 @@ CONSTANTS Part,        \* "ids" | "cover" | "pairs"
           MaxN1,       \* pairs: first sets of 1..MaxN1 points (plus p1 = p2)
           MaxN2,       \* pairs: second sets of 1..MaxN2 points
           Deviation,   \* "none" | "miss_level" | "no_inner_test" | "no_hole_test" |
-                       \* "trunc_toward_zero" | "lossy_cover" | "maxid_exclusive"
+                       \* "trunc_toward_zero" | "lossy_cover" | "maxid_exclusive" | "stale_cache"
           DoExport
 
 VARIABLES phase,
           dg, lm, nm,                  \* ids
           cc, work, fullL, partL,      \* cover
-          pc, mech                     \* pairs
-vars == <<phase, dg, lm, nm, cc, work, fullL, partL, pc, mech>>
+          pc, mech,                    \* pairs
+          hcalls, hcache               \* hist
+vars == <<phase, dg, lm, nm, cc, work, fullL, partL, pc, mech, hcalls, hcache>>
 idsVars   == <<dg, lm, nm>>
 coverVars == <<cc, work, fullL, partL>>
-pairVars  == <<pc, mech>>
+pairVars  == <<pc, mech, hcalls, hcache>>
+NoCache   == [valid |-> FALSE, lf |-> <<>>]
 
 \* =========================================================================================
 \* catalogues (the positions and radii are those of HtmMatchMC, so that C12 and C13 walk the
@@ -69,8 +79,8 @@ pairVars  == <<pc, mech>>
 GcPosQ == {<<0, 0>>, <<0, 1>>, <<0, -1>>, <<90, 0>>, <<180, 1>>}
 GcPosT == GcPosQ \cup {<<0, 2>>, <<90, -1>>, <<270, 0>>, <<45, 0>>}
 GcPosC == {<<a, b>> : a \in {0, 1, 45, 89, 90, 91, 179, 180, 181, 270, 359}, b \in -2..2}     \* cover probes
-GcRadQ == {<<0, 1>>, <<0, 3>>, <<0, 5>>, <<1, -1>>, <<45, 1>>, <<90, -1>>}
-GcRadT == GcRadQ \cup {<<0, 7>>, <<1, 1>>, <<2, 1>>, <<44, 1>>, <<89, 1>>, <<90, -3>>, <<10, 3>>, <<30, -3>>}
+GcRadQ == {<<0, 1>>, <<0, 3>>, <<0, 5>>, <<1, -1>>, <<45, 1>>, <<90, -1>>, <<90, 1>>, <<135, -1>>, <<179, 1>>}
+GcRadT == GcRadQ \cup {<<0, 7>>, <<1, 1>>, <<2, 1>>, <<44, 1>>, <<89, 1>>, <<90, -3>>, <<10, 3>>, <<30, -3>>, <<91, 1>>, <<100, 3>>, <<120, -1>>, <<150, 1>>, <<170, -3>>, <<179, 3>>}
 
 RsPosQ == {<<1, 0, 0, 1>>, <<0, 0, 1, 1>>, <<3, 4, 0, 5>>, <<2, -1, 2, 3>>, <<-1, 0, 0, 1>>}
 RsPosT == RsPosQ \cup {<<0, 0, -1, 1>>, <<4, 3, 0, 5>>, <<0, 1, 0, 1>>, <<2, 3, 6, 7>>}
@@ -78,9 +88,11 @@ RsPosC == RsPosT \cup {<<1, 2, 2, 3>>, <<2, 2, 1, 3>>, <<-2, -2, -1, 3>>, <<0, -
                        <<1, 4, 8, 9>>, <<-4, 4, 7, 9>>, <<2, 6, 9, 11>>, <<6, -6, 7, 11>>, <<3, 4, 12, 13>>,
                        <<2, 10, 11, 15>>, <<-10, 10, 5, 15>>, <<2, 5, -14, 15>>, <<0, -1, 0, 1>>, <<-3, -4, 0, 5>>,
                        <<12, 0, 5, 13>>, <<0, 5, -12, 13>>, <<14, 2, 5, 15>>}
-\* radii 1e-4 .. 90 degrees as cosines: 224/225 (5.4), 24/25 (16.3), 4/5 (36.9), 3/5 (53.1), 1/2 (60), 0 (90)
-RsRadQ == {<<24, 25>>, <<4, 5>>, <<1, 2>>, <<0, 1>>}
-RsRadT == RsRadQ \cup {<<224, 225>>, <<3, 5>>, <<2, 3>>, <<8, 9>>, <<12, 13>>, <<1, 3>>, <<99, 100>>}
+\* radii as cosines: 224/225 (5.4), 24/25 (16.3), 4/5 (36.9), 3/5 (53.1), 1/2 (60), 0 (90), -1/2 (120), -4/5 (143.1),
+\* -24/25 (163.7) degrees: the statement puts no upper bound on the radius, (90, 180) is the negative-cosine regime
+RsRadQ == {<<24, 25>>, <<4, 5>>, <<1, 2>>, <<0, 1>>, <<-1, 2>>, <<-4, 5>>}
+RsRadT == RsRadQ \cup {<<224, 225>>, <<3, 5>>, <<2, 3>>, <<8, 9>>, <<12, 13>>, <<1, 3>>, <<99, 100>>,
+                       <<-1, 5>>, <<-3, 5>>, <<-24, 25>>, <<-12, 13>>, <<-99, 100>>}
 
 Pos   == IF Lat = "gc" THEN (IF Scope = "q" THEN GcPosQ ELSE GcPosT) ELSE (IF Scope = "q" THEN RsPosQ ELSE RsPosT)
 Radii == IF Lat = "gc" THEN (IF Scope = "q" THEN GcRadQ ELSE GcRadT) ELSE (IF Scope = "q" THEN RsRadQ ELSE RsRadT)
@@ -119,7 +131,7 @@ NoMech   == [i |-> 0, counts |-> <<>>]
 Init == /\ phase = Part
         /\ dg = <<>> /\ lm = <<0, 0, 0>> /\ nm = <<>>
         /\ cc = NoCircle /\ work = <<>> /\ fullL = {} /\ partL = {}
-        /\ pc = NoPairs /\ mech = NoMech
+        /\ pc = NoPairs /\ mech = NoMech /\ hcalls = <<>> /\ hcache = NoCache
 
 \* =========================================================================================
 \* Part "ids"
@@ -211,7 +223,8 @@ CoverCase == /\ phase = "cover" /\ Deviation = "none"
 CaseRC(p) == HiEdgeCmp(Lat, cc.c, p, 1, cc.r2)
 CoverCaseSane == phase = "covercase" =>
     /\ CaseRC(cc.c) = -1                                                        \* the centre is inside its circle
-    /\ \E p \in ProbeSet(cc.c, cc.r2) : CaseRC(p) = 1                           \* some probe is outside
+    /\ (Lat = "gc" \/ HiRCmp(cc.r2, <<0, 1>>) >= 0) =>
+          \E p \in ProbeSet(cc.c, cc.r2) : CaseRC(p) = 1                        \* some probe is outside (radius <= 90 on rs)
     /\ (Lat = "gc" /\ HiLt(<<0, 2>>, cc.r2)) =>                                  \* and (radius above one step) another one inside
           \E p \in ProbeSet(cc.c, cc.r2) : CaseRC(p) = -1 /\ ~HiSame(Lat, p, cc.c)
 
@@ -220,19 +233,19 @@ CoverCaseSane == phase = "covercase" =>
 SeqsUpTo(S, n) == UNION {[1..k -> S] : k \in 1..n}
 ChooseP2 == /\ phase = "pairs"
             /\ \E s \in SeqsUpTo(Pos, MaxN2) : pc' = [pc EXCEPT !.p2 = s]
-            /\ phase' = "p1" /\ UNCHANGED <<mech, idsVars, coverVars>>
+            /\ phase' = "p1" /\ UNCHANGED <<mech, hcalls, hcache, idsVars, coverVars>>
 ChooseP1 == /\ phase = "p1"
             /\ \E s \in SeqsUpTo(Pos, MaxN1) \cup {pc.p2} : pc' = [pc EXCEPT !.p1 = s]
-            /\ phase' = "bins" /\ UNCHANGED <<mech, idsVars, coverVars>>
+            /\ phase' = "bins" /\ UNCHANGED <<mech, hcalls, hcache, idsVars, coverVars>>
 ChooseBins == /\ phase = "bins"
               /\ \E bc \in BinChoices : pc' = [pc EXCEPT !.edges = bc.edges, !.below = bc.below]
-              /\ phase' = "scale" /\ UNCHANGED <<mech, idsVars, coverVars>>
+              /\ phase' = "scale" /\ UNCHANGED <<mech, hcalls, hcache, idsVars, coverVars>>
 ChooseScale(runmech) ==
     /\ phase = "scale"
     /\ \E sc \in ScaleChoices(Len(pc.p1), pc.edges) : pc' = [pc EXCEPT !.scale = sc]
     /\ IF runmech THEN phase' = "mech" /\ mech' = [i |-> 1, counts |-> [b \in 1..(Len(pc.edges) - 1) |-> 0]]
        ELSE phase' = "case" /\ mech' = NoMech
-    /\ UNCHANGED <<idsVars, coverVars>>
+    /\ UNCHANGED <<hcalls, hcache, idsVars, coverVars>>
 
 PRec == [kind |-> "pairs", lat |-> Lat, p1 |-> pc.p1, p2 |-> pc.p2, edges |-> pc.edges, scale |-> pc.scale, obs |-> <<>>]
 
@@ -240,7 +253,7 @@ PRec == [kind |-> "pairs", lat |-> Lat, p1 |-> pc.p1, p2 |-> pc.p2, edges |-> pc
 \* an abstract leaf triangle per position: positions a few eps apart share one (gc); one per octant (rs)
 Leaf(p) == IF Lat = "gc" THEN 1000 + p[1]
            ELSE 8 + (IF p[1] < 0 THEN 1 ELSE 0) + (IF p[2] < 0 THEN 2 ELSE 0) + (IF p[3] < 0 THEN 4 ELSE 0)
-Leaf2(r)  == [j \in 1..PN2(r) |-> Leaf(r.p2[j])]
+Leaf2(r)  == IF "lf" \in DOMAIN r THEN r.lf ELSE [j \in 1..PN2(r) |-> Leaf(r.p2[j])]     \* r.lf: ids the object kept from an earlier call
 MinId(r)  == VSeqMin(Leaf2(r))
 MaxId(r)  == VSeqMax(Leaf2(r))
 \* stat.histogram(htmid2 - minid, rev=True): the members of leaf bin k, per the reference semantics of Hist.tla
@@ -252,7 +265,7 @@ NeededLeaves(r, i) == {Leaf(r.p2[j]) : j \in {h \in 1..PN2(r) : MaxCmp(r, i, h) 
 Covers(r, i) ==
     IF Deviation = "lossy_cover" /\ NeededLeaves(r, i) # {}
     THEN {NeededLeaves(r, i) \ {VSetMax(NeededLeaves(r, i))}}
-    ELSE {NeededLeaves(r, i), VRange(Leaf2(r))}                       \* any superset will do: the two extremes
+    ELSE {NeededLeaves(r, i), NeededLeaves(r, i) \cup VRange(Leaf2(r))}   \* any superset will do: the two extremes
 InIdRange(r, leaf) == leaf >= MinId(r) /\ (IF Deviation = "maxid_exclusive" THEN leaf < MaxId(r) ELSE leaf <= MaxId(r))
 Candidates(r, cover) ==
     LET RECURSIVE go(_)
@@ -277,9 +290,9 @@ MechStep == /\ phase = "mech" /\ mech.i <= PN1(PRec)
             /\ \E cover \in Covers(PRec, mech.i) :
                \E cn \in Outcomes(PRec, mech.i, Candidates(PRec, cover), mech.counts) :
                   mech' = [i |-> mech.i + 1, counts |-> cn]
-            /\ UNCHANGED <<phase, pc, idsVars, coverVars>>
+            /\ UNCHANGED <<phase, pc, hcalls, hcache, idsVars, coverVars>>
 MechDone == /\ phase = "mech" /\ mech.i > PN1(PRec)
-            /\ phase' = "done" /\ UNCHANGED <<pc, mech, idsVars, coverVars>>
+            /\ phase' = "done" /\ UNCHANGED <<pc, mech, hcalls, hcache, idsVars, coverVars>>
 
 PairMechRefines == phase = "done" =>
     PObsFailing(PRec, [var |-> "mech", err |-> "none", counts |-> mech.counts]) = {}
@@ -293,17 +306,57 @@ PairRefAccepted == (phase = "case" \/ (phase = "mech" /\ mech.i = 1)) =>
                PEdgeCmp(PRec, pr[1], pr[2], 1) >= 0 /\ PEdgeCmp(PRec, pr[1], pr[2], Len(pc.edges)) < 0})
 
 \* =========================================================================================
+\* Part "hist": one HTM object, the caller's coordinate buffers, and a history  (Overwrite ; Bincount)*.
+\* The object has NO abstract state: what a call may return is a function of the buffers' contents at the
+\* time of the call (PairFailing), whatever was called before and whichever array objects carry the points.
+\* HOverwrite writes new point sets of the same sizes into the same buffers; HBincount runs the cbincount
+\* model on them.  Deviation "stale_cache" (self-test) keeps the ids / reverse indices of the first call on
+\* the object, keyed on the identity of the buffers: later calls walk the old leaf membership.
+CONSTANTS HistN2, HistCalls
+HistScales == {<<>>, <<2>>}
+HStart == /\ phase = "hist"
+          /\ \E bc \in BinChoices : \E sc \in HistScales :
+                (Lat = "gc" \/ HiChebOK(2, bc.edges[Len(bc.edges)]) \/ sc = <<>>)
+                /\ pc' = [NoPairs EXCEPT !.edges = bc.edges, !.below = bc.below, !.scale = sc]
+          /\ phase' = "hready" /\ UNCHANGED <<mech, hcalls, hcache, idsVars, coverVars>>
+HOverwrite == /\ phase = "hready" /\ Len(hcalls) < HistCalls
+              /\ \E a \in (IF hcalls = <<>> THEN Pos ELSE {pc.p1[1]}) : \E b \in [1..HistN2 -> Pos] :      \* later: the second list's buffers
+                    pc' = [pc EXCEPT !.p1 = <<a>>, !.p2 = b]
+              /\ phase' = "hfilled" /\ UNCHANGED <<mech, hcalls, hcache, idsVars, coverVars>>
+HRec == IF Deviation = "stale_cache" /\ hcache.valid THEN PRec @@ [lf |-> hcache.lf] ELSE PRec
+RECURSIVE AllOutcomes(_, _, _)
+AllOutcomes(r, i, cn) ==
+    IF i > PN1(r) THEN {cn}
+    ELSE UNION {UNION {AllOutcomes(r, i + 1, c2) : c2 \in Outcomes(r, i, Candidates(r, cover), cn)} : cover \in Covers(r, i)}
+HBincount(runmech) ==
+    /\ phase = "hfilled"
+    /\ IF runmech
+       THEN \E cn \in AllOutcomes(HRec, 1, [b \in 1..PNBin(PRec) |-> 0]) :
+               hcalls' = Append(hcalls, [p1 |-> pc.p1, p2 |-> pc.p2, counts |-> cn])
+       ELSE hcalls' = Append(hcalls, [p1 |-> pc.p1, p2 |-> pc.p2, counts |-> <<>>])
+    /\ hcache' = IF hcache.valid THEN hcache ELSE [valid |-> TRUE, lf |-> Leaf2(PRec)]
+    /\ phase' = "hready" /\ UNCHANGED <<pc, mech, idsVars, coverVars>>
+HCallRec(n) == [kind |-> "pairs", lat |-> Lat, p1 |-> hcalls[n].p1, p2 |-> hcalls[n].p2, edges |-> pc.edges, scale |-> pc.scale, obs |-> <<>>]
+\* every call of every history is accepted by the property-level brute force on its own buffers' contents
+HistMechRefines == (phase = "hready" /\ hcalls # <<>>) =>
+    LET n == Len(hcalls) IN PObsFailing(HCallRec(n), [var |-> "mech", err |-> "none", counts |-> hcalls[n].counts]) = {}
+
+\* =========================================================================================
 Next ==
     \/ IdsRoot \/ IdsDescend
     \/ CoverChoose \/ CoverStep \/ CoverDone \/ CoverCase
     \/ ChooseP2 \/ ChooseP1 \/ ChooseBins \/ ChooseScale(TRUE) \/ MechStep \/ MechDone
-NextExport == CoverCase \/ ChooseP2 \/ ChooseP1 \/ ChooseBins \/ ChooseScale(FALSE)
+    \/ HStart \/ HOverwrite \/ HBincount(TRUE)
+NextExport == CoverCase \/ ChooseP2 \/ ChooseP1 \/ ChooseBins \/ ChooseScale(FALSE) \/ HStart \/ HOverwrite \/ HBincount(FALSE)
 Spec == Init /\ [][Next]_vars
 
 Export ==
     /\ (DoExport /\ phase = "covercase") =>
           PrintT(<<"CASE", ToJson([kind |-> "cover", lat |-> Lat, c |-> cc.c, rad |-> cc.r2,
                                    probes |-> SetToSeq(ProbeSet(cc.c, cc.r2))])>>)
+    /\ (DoExport /\ phase = "hready" /\ Len(hcalls) = HistCalls) =>
+          PrintT(<<"CASE", ToJson([kind |-> "history", lat |-> Lat, edges |-> pc.edges, scale |-> pc.scale,
+                                   calls |-> [n \in DOMAIN hcalls |-> [p1 |-> hcalls[n].p1, p2 |-> hcalls[n].p2]]])>>)
     /\ (DoExport /\ phase = "case") =>
           PrintT(<<"CASE", ToJson([kind |-> "pairs", lat |-> Lat, p1 |-> pc.p1, p2 |-> pc.p2, edges |-> pc.edges,
                                    scale |-> pc.scale])>>)
